@@ -388,7 +388,7 @@ COMMON_TRUSTED = [
     "translator tools/gen_consts.py (regex-level copy of constants and data-type tables from /repo into coq/Model/Consts.v on every run)",
     "extraction: ExtrOcamlBasic only (bool/option/unit/list/prod/sumbool/sumor mapped to OCaml natives; nat, positive, N, Z stay inductive; no Extract Constant); OCaml 4.13.1 ocamlopt; zarith used only in the driver for decimal I/O",
     "correspondence harness (Rust crate qco_harness built against /repo's working tree with feature qco_verif, OCaml driver, Python comparison): differential testing, bounded by generator quality",
-    "hand transcriptions tied by their own correspondence classes, not by construction: Model/Words.v (64-bit-word BitWriter/BitWords/BitReader, CompressionTable; proved equal to the bit-list contracts in WordsL.v; wordops/ctsearch scripts through the hooks), Model/Fast.v (unchecked fast decode path; proved equal to the checked path in FastL.v), the 6-bit-stride Huffman lookup (Codec.tsearch)",
+    "hand transcriptions of the 64-bit-word code (Model/Words.v BitWriter/BitWords/BitReader/CompressionTable, Huff.v HuffmanTable, WFile.v compressor call sequence, RFile.v header/metadata parse, RBody.v checked body batch, RFast.v complete batch with unchecked reads, Fast.v bit-list fast path), each PROVED equal to the bit-list model the property theorems are about; the transcriptions themselves are tied to the real code by the wordops/ctsearch operation scripts through the hooks and, end to end, by the byte/step correspondence of the bit-list model",
     "modelled, not verified: all f64 policy decisions and BinaryHeap order (oracle, universally quantified in the theorems), allocation, time, threads, rustc",
 ]
 
